@@ -1765,6 +1765,25 @@ class EffectDomain(DefaultDomain):
             out.append(r if r.kind == "exc" else val(TOP, r.state))
         return out
 
+    def call_tracked_values(self, d, pos, kw, st):
+        """A function of the environment (tracked / answered by the oracle) called through a value: logged and answered
+        like a call by name."""
+        pos, kw = tuple(unbox_deep(v, st) for v in pos), tuple((k, unbox_deep(v, st)) for k, v in kw)
+
+        def logged(tag):
+            if not self.track(d):
+                return st
+            log = st.get("ev.calls", ())
+            return st.set("ev.calls", log + ((d, pos, kw, tag),)) if len(log) < self.log_cap else st.set("ev.calls.overflow", 1)
+        answered = None
+        if self.oracle is not None and d not in self.results and d not in self.raises:
+            answered = self.oracle(d, list(pos), list(kw), st) if getattr(self, "oracle_state", False) else self.oracle(d, list(pos), list(kw))
+        if answered is not None:
+            return [val(o[1], logged("ok")) if o[0] == "val" else exc(o[1], logged(o[1][1] if isinstance(o[1], tuple) and len(o[1]) > 1 and isinstance(o[1][1], str) else "raised")) for o in answered]
+        out = [val(v, logged("ok")) for v in self.results.get(d, [TOP])]
+        out += [exc(e, logged(e[1] if isinstance(e, tuple) and len(e) > 1 and isinstance(e[1], str) else "raised")) for e in self.raises.get(d, [])]
+        return out
+
     def call_on_value(self, interp, receiver, call, st, fr):
         """<expression with calls>.m(...) whose receiver evaluated to ``receiver``: subclasses with richer objects answer here."""
         return None
